@@ -209,9 +209,9 @@ func VxC20AdvanceTo() {
 
 // Lookup by hash finds exactly the items of the view's blocks.
 func VxC20Lookups() {
-	vx.Bound("view over 1..2 blocks with 0..1 transactions each; hashes symbolic")
+	vx.Bound("stored chain of 1..3 blocks with 0..1 transactions each, hashes symbolic; view = the whole chain or the head-aligned snapshot SnapshotForBlock(b) for a stored b (a trimmed view over [b, tip]); lookups by symbolic hash")
 	oldest := uint64(10)
-	n := 1 + vx.Choice("len", 2)
+	n := 1 + vx.Choice("len", 3)
 	var entries []*pending.PreConfirmed
 	var hashes []*felt.Felt
 	for i := 0; i < n; i++ {
@@ -225,16 +225,29 @@ func VxC20Lookups() {
 		}
 		entries = append(entries, e)
 	}
-	c, err := NewChain(entries...)
+	full, err := NewChain(entries...)
 	vx.Assert(err == nil, "newchain")
+	c := &full
+	lo := oldest // lowest block of the view
+	if vx.Bool("snapshot") {
+		st := NewChainStorage()
+		st.inner.Store(&full)
+		lo = oldest + uint64(vx.Choice("from", n))
+		snap := st.SnapshotForBlock(lo)
+		c = &snap
+		if lo > oldest {
+			vx.Cover("trimmed-view")
+		}
+	}
 	qb := vx.FeltBytes("query")
 	q := new(felt.Felt).SetBytes(qb[:])
 	want := false
-	for _, h := range hashes {
-		if h.Equal(q) {
+	for _, e := range entries {
+		if e.Block.Number >= lo && len(e.Block.Transactions) == 1 && e.Block.Transactions[0].Hash().Equal(q) {
 			want = true
 		}
 	}
+	_ = hashes
 	tx, terr := c.TransactionByHash(q)
 	vx.Assert((terr == nil) == want, "tx-found-iff-in-view")
 	if terr == nil {
@@ -244,6 +257,6 @@ func VxC20Lookups() {
 	r, num, rerr := c.ReceiptByHash(q)
 	vx.Assert((rerr == nil) == want, "receipt-found-iff-in-view")
 	if rerr == nil {
-		vx.Assert(r.TransactionHash.Equal(q) && num >= oldest && num < oldest+uint64(n), "receipt-block-inside-view")
+		vx.Assert(r.TransactionHash.Equal(q) && num >= lo && num < oldest+uint64(n), "receipt-block-inside-view")
 	}
 }
